@@ -41,10 +41,33 @@ def _strategy(name):
     return BaseStrategy(market_filter={}, name=name, max_order_exposure=None, max_selection_exposure=None)
 
 
-def _mk_order(strategy, sep="-", side="BACK"):
-    from flumine.order.trade import Trade
-    from flumine.order.ordertype import LimitOrder
+_CLASSES = None
 
+
+def _order_classes():
+    """the library's order class, two user subclasses of it (Trade.create_order(order=...)) and the Betdaq class"""
+    global _CLASSES
+    if _CLASSES is None:
+        from flumine.order.order import BetfairOrder
+
+        class TaggedOrder(BetfairOrder):
+            pass
+
+        class OtherOrder(TaggedOrder):
+            pass
+
+        _CLASSES = (BetfairOrder, TaggedOrder, OtherOrder, "betdaq")
+    return _CLASSES
+
+
+def _mk_order(strategy, sep="-", side="BACK", cls=None):
+    from flumine.order.trade import Trade
+    from flumine.order.ordertype import LimitOrder, BetdaqLimitOrder
+
+    if cls == "betdaq":
+        return Trade("1.23456", 12, 0, strategy).create_betdaq_order(side, BetdaqLimitOrder(2.0, 2.0, 1, 0, 0), sep=sep)
+    if cls is not None:
+        return Trade("1.23456", 12, 0, strategy).create_order(side, LimitOrder(2.0, 2.0), order=cls, sep=sep)
     return Trade("1.23456", 12, 0, strategy).create_order(side, LimitOrder(2.0, 2.0), sep=sep)
 
 
@@ -69,21 +92,26 @@ def run(case):
         import datetime as _dt
 
         refs = []
+        # every other loop mixes order classes (several classes creating orders at the same - simulated - instant)
+        classes = _order_classes() if case["i"] % 4 >= 2 else (None,)
+        nc = len(classes)
         if case["sim_clock"]:
             sdt = SimulatedDateTime()
             with sdt:
                 sdt(_dt.datetime(2022, 1, 1, 12, 0, 0))
                 for i in range(case["n"]):
-                    refs.append(_mk_order(st).customer_order_ref)
+                    if i % 1000 == 999:
+                        sdt(_dt.datetime(2022, 1, 1, 12, 0, 0) + _dt.timedelta(milliseconds=i))
+                    refs.append(_mk_order(st, cls=classes[i % nc]).customer_order_ref)
         else:
             for i in range(case["n"]):
-                refs.append(_mk_order(st).customer_order_ref)
+                refs.append(_mk_order(st, cls=classes[i % nc]).customer_order_ref)
         out.rule("unique", len(refs))
         if len(set(refs)) != len(refs):
             out.v("duplicate-reference", {"threads": False, "sim_clock": case["sim_clock"]}, duplicates=len(refs) - len(set(refs)), example=[r for r in refs if refs.count(r) > 1][:2] if len(refs) < 50000 else None)
         for r in refs[:: max(1, len(refs) // 300)]:
             _check_ref(out, r)
-        out.d("loop:%s:%s:%d" % (case["i"], case["sim_clock"], len(set(refs))))
+        out.d("loop:%s:%s:%d:%d" % (case["i"], case["sim_clock"], len(set(refs)), nc))
         out.c("refs", len(set(refs)))
     elif kind == "threads":
         st = _strategy("T")
@@ -237,5 +265,23 @@ def _roundtrip(case, out):
     wb.snapshot()
     if m is not None and (len(m.blotter) != n1 or len(m.blotter._live_orders) != live1 or any(m.blotter._orders.get(k) is not v for k, v in first.items())):
         out.v("adopted-twice", {}, before=n1, after=len(m.blotter), live_before=live1, live_after=len(m.blotter._live_orders))
+    # a strategy registered at run time, after references have already been resolved once: its references resolve too
+    late_name = "late-%d" % case["i"]
+    la, lb = _strategy(late_name), _strategy(late_name)
+    wb.add_strategy(lb)
+    late = []
+    for sep in seps[:3]:
+        for j in range(3):
+            o = _mk_order(la, sep=sep, side=rng.choice(("BACK", "LAY")))
+            bet = ex._new_bet("1.23456", o.create_place_instruction(), None)
+            late.append((o, bet["betId"]))
+    wb.snapshot()
+    for o, bet_id in late:
+        out.rule("roundtrip")
+        got = m.blotter._orders.get(o.id) if m is not None else None
+        if got is None:
+            out.v("reference-not-resolved", {"late_strategy": True}, ref=o.customer_order_ref, strategy=late_name)
+        elif got.trade.strategy is not lb or got.bet_id != bet_id:
+            out.v("reference-attributed-to-wrong-order-or-strategy", {"late_strategy": True}, ref=o.customer_order_ref, got_strategy=got.trade.strategy.name)
     out.d("roundtrip:%d:%d" % (case["i"], len(made)))
     wb.close()
